@@ -36,7 +36,7 @@ Step ==
                     \cup (IF e.k > 1 /\ (e.k - 1) \in DOMAIN hstart
                               /\ ~(e.item.tr = hstart[e.k - 1].tr /\ e.item.sampled = hstart[e.k - 1].sampled /\ e.item.span # hstart[e.k - 1].span)
                             THEN {"nested request does not carry the handler's trace id / sampling with a fresh span"} ELSE {})
-               /\ bad07' = IF e.k > 1 /\ (e.k - 1) \in DOMAIN hstart /\ e.item.dl # hstart[e.k - 1].dl
+               /\ bad07' = IF e.k > 1 /\ (e.k - 1) \in DOMAIN hstart /\ e.item.rel # hstart[e.k - 1].rel
                              THEN bad07 \cup {"nested call does not carry the handler's deadline"} ELSE bad07
                /\ UNCHANGED <<start, hstart, abandoned, bad04>>
           [] e.ev = "LinkSent" /\ e.item.kind = "cancel" ->
@@ -45,10 +45,12 @@ Step ==
                              THEN bad18 \cup {"cancellation does not carry its request's trace context"} ELSE bad18
                /\ UNCHANGED <<start, req, hstart, abandoned, bad04, bad07>>
           [] e.ev = "ChainHandlerStart" ->
-               /\ hstart' = (e.k :> [dl |-> e.dl, tr |-> e.tr, span |-> e.span, sampled |-> e.sampled]) @@ hstart
+               /\ hstart' = (e.k :> [dl |-> e.dl, rel |-> e.rel, tr |-> e.tr, span |-> e.span, sampled |-> e.sampled]) @@ hstart
                /\ bad18' = IF e.k \in DOMAIN req /\ ~(e.tr = req[e.k].tr /\ e.sampled = req[e.k].sampled /\ e.span # req[e.k].span)
                              THEN bad18 \cup {"handler does not observe the request's trace id / sampling with a fresh span"} ELSE bad18
-               /\ bad07' = IF e.dl >= start.dl /\ e.dl <= start.dl + SumTo(start.delays, e.k) THEN bad07
+               \* deadlines are compared relative to the head call's deadline (rel = deadline - head deadline, in ms):
+               \* deadlines years away do not fit the specification's integers
+               /\ bad07' = IF e.rel >= 0 /\ e.rel <= SumTo(start.delays, e.k) THEN bad07
                            ELSE bad07 \cup {"handler's deadline is earlier than the caller's or later than it plus accumulated transit"}
                /\ UNCHANGED <<start, req, abandoned, bad04>>
           [] e.ev = "ChainAbandon" -> abandoned' = TRUE /\ UNCHANGED <<start, req, hstart, bad04, bad07, bad18>>
